@@ -30,9 +30,11 @@ package dpt
 //@   loop 0 invariant i >= 0 && buf[0] == 0
 //@   loop 0 invariant forall k in 1..15 :: buf[k] <= 127
 //@   loop 0 decreases 14 - i
+//@   loop 0 assigns buf[1:15]
 
 //@ func (d DPT_16001) Pack() (r []byte)
 //@   props C07
 //@   ensures [format] len(r) == 15 && r[0] == 0 && fresh(r)
 //@   loop 0 invariant i >= 0 && buf[0] == 0
 //@   loop 0 decreases 14 - i
+//@   loop 0 assigns buf[1:15]
